@@ -231,13 +231,18 @@ def rule_bounds(run):
         ok2 = len(i1.orelse) == 1 and isinstance(i1.orelse[0], ast.If) and is_cmp(i1.orelse[0].test, ast.Gt, '-1') \
             and sets_index(i1.orelse[0].body, '-1')
         ok3 = False
-        if ok2:
-            el = i1.orelse[0].orelse
+        if not (len(i1.orelse) == 1 and isinstance(i1.orelse[0], ast.If)):
+            run.unknown(key, 'if/elif/else shape not recognised', where=fi.where()); return
+        el = i1.orelse[0].orelse
+        if not (len(el) == 2 and isinstance(el[0], ast.Assign) and isinstance(el[0].targets[0], ast.Name)
+                and isinstance(el[1], ast.Assign) and len(i1.body) == 1 and len(i1.orelse[0].body) == 1):
+            run.unknown(key, 'nearest-selection branch shape not recognised', where=fi.where()); return
+        if True:
             if len(el) == 2 and isinstance(el[0], ast.Assign) and isinstance(el[0].targets[0], ast.Name):
                 d = el[0].targets[0].id
                 v = norm(el[0].value)
                 ok3 = v in ('np.abs(self.%s - %s)' % (arr, p), 'np.abs(%s - self.%s)' % (p, arr),
-                            'abs(self.%s - %s)' % (arr, p)) and sets_index(el[1:], 'np.argmin(%s)' % d)
+                            'abs(self.%s - %s)' % (arr, p), 'abs(%s - self.%s)' % (p, arr)) and sets_index(el[1:], 'np.argmin(%s)' % d)
         if ok1 and ok2 and ok3: run.ok(key, where=fi.where())
         else:
             run.violated(key, 'selection is not: below first -> 0, above last -> -1, else argmin(abs(%s - %s))'
